@@ -92,7 +92,7 @@ package inputrc
 //@ manual
 
 //@ func unescapeRunes
-//@   props C12 C01 C19
+//@   props C12 C01 C19 C02
 //@   terminates
 //@   requires 0 <= i && end <= len(r)
 //@   pure
@@ -171,7 +171,7 @@ package inputrc
 // unescs names the result of Unescape (a pure function of its argument)
 //@ spec unescs(s string) string
 //@ func Unescape
-//@   props C12 C19 C03 C18
+//@   props C12 C19 C03 C18 C02
 //@   terminates
 //@   pure
 //@   defines unescs
